@@ -16,6 +16,8 @@ import Nstd.Sha.Spec
      updatenull / hashnull / hmacnullkey <msg> / hmacnullmsg <key>
                       real side: the empty input is passed as (nullptr, 0); model side: the empty list
      setcount <n>     white box: `count = n` (n a multiple of 64 below 2^64; the buffer then holds nothing)
+     fork / assign    copy of the hasher mid-stream into the second object (copy constructor / copy assignment) -> ok
+     swap             the second object becomes the active one and vice versa                              -> ok
      variant rolled|u2  which build configuration of Sha256.cpp the following `xform` lines model (a harness answers
                       `ok` only for the configuration it was compiled in); `reset` returns to `rolled`   -> ok
      xform <state32> <block64>   white box: one `Transform` call on an arbitrary chaining value: a scratch hasher gets
@@ -52,6 +54,8 @@ def wordsOf (b : List UInt8) : List UInt32 :=
 /-- driver state: the hasher object and the selected build configuration -/
 structure DState where
   sha : Sha
+  /-- the second object (a copy taken by `fork`/`assign`; a fresh hasher before) -/
+  other : Sha
   u2 : Bool
 
 def stepSha (st : Sha) (ws : List String) : Sha × String :=
@@ -96,7 +100,10 @@ def stepSha (st : Sha) (ws : List String) : Sha × String :=
 
 def stepLine (st : DState) (ws : List String) : DState × String :=
   match ws with
-  | ["reset"] => ({ sha := init, u2 := false }, "ok")
+  | ["reset"] => ({ sha := init, other := init, u2 := false }, "ok")
+  | ["fork"] => ({ st with other := st.sha }, "ok")
+  | ["assign"] => ({ st with other := st.sha }, "ok")
+  | ["swap"] => ({ st with sha := st.other, other := st.sha }, "ok")
   | ["variant", "rolled"] => ({ st with u2 := false }, "ok")
   | ["variant", "u2"] => ({ st with u2 := true }, "ok")
   | ["xform", s, b] =>
@@ -112,4 +119,4 @@ def stepLine (st : DState) (ws : List String) : DState × String :=
 
 end Nstd.Sha
 
-def main : IO Unit := Nstd.Common.ioLoop ({ sha := Nstd.Sha.init, u2 := false } : Nstd.Sha.DState) Nstd.Sha.stepLine
+def main : IO Unit := Nstd.Common.ioLoop ({ sha := Nstd.Sha.init, other := Nstd.Sha.init, u2 := false } : Nstd.Sha.DState) Nstd.Sha.stepLine
